@@ -28,7 +28,7 @@ def run(sid, n):
         if r.returncode:
             return sid, 'patch does not apply: ' + r.stderr[-200:], []
         jx = f'/tmp/ss_{sid}.xml'
-        env = dict(os.environ, PYTHONPATH=wt)
+        env = dict(os.environ, PYTHONPATH=wt, OMP_NUM_THREADS='1', OPENBLAS_NUM_THREADS='1', MKL_NUM_THREADS='1')
         subprocess.run(['/venv/bin/python', '-m', 'pytest', '-q', '-p', 'no:cacheprovider', '--timeout=900', '--continue-on-collection-errors', '-n', str(n), f'--junitxml={jx}'], cwd=wt, env=env, capture_output=True, text=True)
         passed = set()
         for tc in ET.parse(jx).iter('testcase'):
